@@ -98,6 +98,8 @@ theorem line_points_in_box (l : Line) (p : Pt) (hp : p ∈ points l) :
   obtain ⟨k, hk, rfl⟩ := mem_points.mp hp
   exact ptAt_in_box l k hk
 
+example : (⟨4, 3⟩ : Pt) ∈ points ⟨⟨5, 4⟩, ⟨1, 2⟩⟩ := by decide
+
 /-- `points()` commutes with translation (used by C07). -/
 theorem line_points_translate (l : Line) (d : Pt) :
     points (l.translate d) = (points l).map (· + d) := Line.points_translate l d
@@ -117,6 +119,10 @@ theorem thick_contains_thin (l : Line) (w : Nat) (hw : 1 ≤ w) (hw2 : w ≤ 214
     (∃ more, ps = points l ++ more) ∧ ∀ p ∈ points l, p ∈ ps := by
   obtain ⟨more, hm⟩ := Thick.thickPoints_prefix l w hw hw2 ps h
   exact ⟨⟨more, hm⟩, fun p hp => by rw [hm]; exact List.mem_append_left _ hp⟩
+
+/-- Stroke width 0 draws nothing. -/
+theorem thick_width0_empty (l : Line) : Thick.thickPoints l 0 = some [] :=
+  Thick.thickPoints_width0 l
 
 example : Thick.thickPoints ⟨⟨2, 2⟩, ⟨6, 4⟩⟩ 3 =
     some [⟨2, 2⟩, ⟨3, 2⟩, ⟨4, 3⟩, ⟨5, 3⟩, ⟨6, 4⟩, ⟨2, 1⟩, ⟨3, 1⟩, ⟨4, 2⟩, ⟨5, 2⟩, ⟨6, 3⟩,
